@@ -40,6 +40,10 @@ CHECKS = {
    text="Generated keys/sequence numbers/types/payload lengths 0..16384/padding for SM4-CBC+HMAC-SM3 and TLS 1.3 SM4-GCM records; each protected record gets a generated neighbourhood (bit flips of body and authenticated header fields, length changes, truncation/extension, other sequence numbers, all-padding plaintexts) that must be rejected; live connections of all three protocols must only ever accept a prefix of what was sent. Sampled neighbourhood in quick, larger in thorough; not exhaustive.",
    note="Trusted: vlib/ref/tlsrec.py over OpenSSL SM4 and the Python GCM. Record buffers are exactly as long as their header says (tls_record_recv's postcondition).",
    design="4/C11"),
+ "C14": dict(level="exploration", technique="property-based testing (Hypothesis) through ctypes against the ASan build, with an independent strict DER codec and single-defect mutators (vlib/ref/der.py), Python base64 / PBKDF2-HMAC-SM3 as references, canary-then-exact-size destination buffers and scripted entropy",
+   text="Every ASN.1 type in asn1.h (universal/implicit/explicit tags) and every SM2, PKCS#8, SM9, algorithm-identifier, name and selected extension codec is encoded two-pass into an exactly-sized buffer, compared with the reference DER and decoded back; every single-defect mutant of each encoding is offered to the decoder under the rule 'accepted completely => re-encodes identically'; base64/hex/PEM are checked under generated partitions, line ends and capacities; a wrong password never opens a key. Sampled, not exhaustive.",
+   note="Trusted: vlib/ref/der.py (self-tested on X.690 examples), Python base64/hashlib. Domain exclusions: negative integers/times, 32-bit time_t, UniversalString, uncovered extension builders; SM9 point octets are taken from the library.",
+   design="4/C14"),
 }
 
 NOT_YET = {
